@@ -534,21 +534,6 @@ theorem allvs_refl (s : State) (hs : s.Uniq) : AllVS s s := fun r => vs_refl _ (
 theorem allvs_of_getDb_eq (s s' : State) (hs : s.Uniq) (h : ∀ r, s'.getDb r = s.getDb r) : AllVS s s' := by
   intro r; rw [h r]; exact vs_refl _ (hs r)
 
-theorem getDb_setSession (s : State) (c : Nat) (x : Session) (r : Nat) : (s.setSession c x).getDb r = s.getDb r := by
-  simp [State.getDb]
-
-theorem getDb_tableRef (s : State) (i r : Nat) : (s.tableRef i).1.getDb r = s.getDb r := by
-  unfold State.tableRef
-  split
-  · rfl
-  · simp only [State.getDb, List.find?_append]
-    cases h : List.find? (fun x => x.1 == r) s.heap with
-    | some p => simp
-    | none =>
-      simp only [Option.none_or, Option.map_none, Option.getD_none]
-      simp only [List.find?_cons, List.find?_nil]
-      split <;> rfl
-
 theorem onDb_allvs (s : State) (ref : Nat) (f : Db → R) (hs : s.Uniq) (h : VS (s.getDb ref) (f (s.getDb ref)).db) :
     AllVS s (onDb s ref f).st := by
   intro r
